@@ -603,6 +603,12 @@ pub fn generate(seed: u64, tier: Tier, p: &Profile) -> Scenario {
             let addr = if g.r.chance(1, 2) { AddrSpec::Ent(Cred::Script(s)) } else { AddrSpec::Base(Cred::Script(s), Cred::Key(g.kid())) };
             let u = g.new_utxo(addr, coin, vec![], None, None);
             let wit = g.wit_native(s, true);
+            if pm(&mut g.r, p.corrections) {
+                // the same input handed over twice, with two (truthful) declarations of who signs for the
+                // script; whichever call comes later replaces the other
+                let other = g.wit_native(s, true);
+                plan.pre.push(Op::InScript { utxo: u, wit: other, by_utxo: g.r.chance(1, 2), mistaken: None });
+            }
             plan.pre.push(Op::InScript { utxo: u, wit, by_utxo: g.r.chance(1, 2), mistaken: None });
             explicit_value += coin as u128;
         }
@@ -670,7 +676,7 @@ pub fn generate(seed: u64, tier: Tier, p: &Profile) -> Scenario {
                 };
                 let kcoin = g.min_ada(0) + g.amount() % 20_000_000;
                 let ku = g.new_utxo(kaddr, kcoin, vec![], None, None);
-                plan.pre.push(Op::InScriptThenRegular { utxo: ku, wit: w2 });
+                plan.pre.push(Op::InScriptThenRegular { utxo: ku, wit: w2, checked: g.r.chance(1, 2) });
             }
             if pm(&mut g.r, p.corrections) {
                 // the redeemer is corrected: the same input is handed over again with another one
@@ -737,6 +743,22 @@ pub fn generate(seed: u64, tier: Tier, p: &Profile) -> Scenario {
         let addr = if g.r.chance(1, 8) { AddrSpec::Ent(Cred::Script(*g.r.pick(&g.plutus_ids.clone()))) } else { g.key_addr() };
         plan.need += if min_coin { g.min_ada(extra) as u128 } else { coin as u128 };
         let form = if pm(&mut g.r, p.decoded_outputs) { 1 + g.r.below(2) as u8 } else { 0 };
+        // an output with an inline datum at exactly its minimum ADA, and then "the same" output whose datum arrives in
+        // another producer's longer encoding (equal as a value, not in size): the second one has to be measured on its own
+        if let Some(DatumAt::Inline(d)) = &datum {
+            let twin = g.w.datums.iter().position(|x| matches!(x, Pd::Alt(inner, _) if **inner == g.w.datums[*d as usize])).map(|t| t as u16);
+            if let (Some(t), true, 0) = (twin, g.r.chance(1, 2), form) {
+                let mut first = OutSpec { addr: addr.clone(), coin: 1 << 20, assets: assets.clone(), datum: datum.clone(), script_ref, min_coin: false, form: 0 };
+                first.coin = g.k.cpb * (160 + probe_output_size(&g.w, &first));
+                let second = OutSpec { datum: Some(DatumAt::Inline(t)), ..first.clone() };
+                plan.need += 2 * first.coin as u128;
+                for a in &assets {
+                    *plan.asset_need.entry((a.p, a.n.clone())).or_insert(0) += 2 * a.q;
+                }
+                plan.pre_tail.push(Op::Out(first));
+                plan.pre_tail.push(Op::Out(second));
+            }
+        }
         plan.pre.push(Op::Out(OutSpec { addr, coin, assets, datum, script_ref, min_coin, form }));
     }
 
@@ -794,6 +816,7 @@ pub fn generate(seed: u64, tier: Tier, p: &Profile) -> Scenario {
         let many_w = edge_count(&mut g);
         let n = many_w.unwrap_or(1 + g.r.below(3));
         let mut seen: BTreeSet<Cred> = BTreeSet::new();
+        let mut added_wdrs: Vec<(Cred, Option<Wit>)> = vec![];
         for wi in 0..n {
             let sp = p.script_certs;
             let c = if many_w.is_some() && wi >= 2 { Cred::Key(wi as u16) } else { g.any_cred(sp, true) };
@@ -832,7 +855,23 @@ pub fn generate(seed: u64, tier: Tier, p: &Profile) -> Scenario {
                 // a mistaken first attempt without the witness the script account needs (refused)
                 plan.pre.push(Op::Wdr(c.clone(), amt, None));
             }
+            added_wdrs.push((c.clone(), wit.clone()));
             plan.pre.push(Op::Wdr(c, amt, wit));
+        }
+        if added_wdrs.len() >= 2 && g.r.chance(1, 3) {
+            // one of the accounts is registered a second time after all the others (a corrected amount; for a Plutus
+            // account a new redeemer with the same script source): the later call replaces the earlier one, and the
+            // accounts keep the ledger's order
+            let (c, wit) = added_wdrs[g.r.usize_below(added_wdrs.len() - 1)].clone();
+            let wit = wit.map(|mut w| {
+                if g.w.scripts[w.script as usize].is_plutus() {
+                    w.red = g.next_red();
+                }
+                w
+            });
+            let amt = 1 + g.amount() % 50_000_000;
+            plan.have += amt as u128;
+            plan.pre_tail.push(Op::Wdr(c, amt, wit));
         }
     }
     // ---- mint / burn
@@ -958,6 +997,11 @@ pub fn generate(seed: u64, tier: Tier, p: &Profile) -> Scenario {
                 // the same proposal once more, its document published under a mirror url (another proposal on the wire)
                 plan.need += deposit as u128;
                 plan.pre.push(Op::Propose(ProposalSpec { deposit, reward: reward.clone(), action: action.clone(), mirror: 1 + g.r.below(2) as u8 }, None));
+            }
+            if wit.is_some() && g.r.chance(1, 4) {
+                // a mistaken attempt: the proposal names a guardrails script and is handed to the plain entry point
+                // (refused, F4: nothing of it may stay behind - not in the body, not in the deposit the builder charges)
+                plan.pre.push(Op::Propose(ProposalSpec { deposit, reward: reward.clone(), action: action.clone(), mirror: 0 }, None));
             }
             plan.pre.push(Op::Propose(ProposalSpec { deposit, reward, action, mirror: 0 }, wit));
         }
@@ -1113,9 +1157,25 @@ pub fn generate(seed: u64, tier: Tier, p: &Profile) -> Scenario {
         if pm(&mut g.r, p.collateral_helper) {
             helper_pct = Some(*g.r.pick(&[0u64, 100, 150, 150, 200, 1000]));
         } else if pm(&mut g.r, p.collateral_manual) {
-            let ret_addr = g.key_addr();
+            // (a Daedalus-style Byron address is some twenty bytes longer than a base address: the return has to be measured at its own address)
+            let ret_addr = if g.r.chance(1, 6) { AddrSpec::ByronPath(g.kid() % 16, *g.r.pick(&[28u8, 40])) } else { g.key_addr() };
             if g.r.chance(1, 2) {
                 let t = *g.r.pick(&[total / 2, total / 3, 1_000_000, total, total.saturating_sub(g.min_ada(100))]);
+                let t = if g.r.chance(1, 3) {
+                    // the remainder is exactly what the return output needs at its own address (long Byron addresses
+                    // need more than a base address), or up to a few bytes' worth less (must be refused)
+                    let mut ra: BTreeMap<(u16, Vec<u8>), u64> = BTreeMap::new();
+                    for a in &cassets {
+                        *ra.entry((a.p, a.n.clone())).or_insert(0) += a.q;
+                    }
+                    let rassets: Vec<AssetQ> = ra.into_iter().map(|((p, n), q)| AssetQ { p, n, q }).collect();
+                    let size = probe_output_size(&g.w, &OutSpec { addr: ret_addr.clone(), coin: 1 << 20, assets: rassets, datum: None, script_ref: None, min_coin: false, form: 0 });
+                    let need = g.k.cpb * (160 + size);
+                    let rem = need.saturating_sub(g.r.below(4) * g.k.cpb * g.r.below(12));
+                    if rem > 0 && rem < total { total - rem } else { t }
+                } else {
+                    t
+                };
                 if g.r.chance(1, 6) {
                     // plain setters first (whatever they hold is replaced by what the checked call computes)
                     coll_ops.push(Op::CollTotal(t));
@@ -1221,6 +1281,17 @@ pub fn generate(seed: u64, tier: Tier, p: &Profile) -> Scenario {
                     }
                     coll_ops.push(Op::CollReturnAndTotal(again));
                 }
+            }
+            if g.r.chance(1, 6) {
+                // one more collateral input after the fields were computed, then the explicit-total call again:
+                // it has to work from the inputs as they are now
+                let coin = 3_000_000 + g.amount() % 9_000_000 + g.min_ada(100);
+                let addr = g.key_addr();
+                let u = g.new_utxo(addr, coin, vec![], None, None);
+                total += coin;
+                coll_ops.push(Op::CollUtxo(u));
+                let a3 = g.key_addr();
+                coll_ops.push(Op::CollTotalAndReturn(*g.r.pick(&[total / 2, total / 3, 2_000_000]), a3));
             }
             if g.r.chance(1, 8) {
                 // later the percentage helper is tried although the fee is already fixed: it must fail and, as every
@@ -1555,7 +1626,13 @@ pub fn declared_keys(sc: &Scenario, h: &History, upto_op: usize, required_script
             continue;
         }
         match op {
-            Op::InScript { wit, .. } => visit(wit),
+            // an input handed over again replaces the earlier hand-over: the last successful one counts
+            Op::InScript { utxo, wit, .. } => {
+                let later = sc.ops.iter().enumerate().take(upto_op).skip(i + 1).any(|(j, o)| matches!(o, Op::InScript { utxo: u2, .. } if u2 == utxo) && h.results.get(j).map_or(false, |r| r.is_ok()));
+                if !later {
+                    visit(wit)
+                }
+            }
             Op::Cert(_, Some(w)) | Op::Wdr(_, _, Some(w)) | Op::Propose(_, Some(w)) => visit(w),
             // the mint builder keeps one script source per policy and the voting builder one per
             // voter: the source of the first successful call is the one that counts
